@@ -8,7 +8,7 @@ lockstep, the best-path walk never repeats a node, sequence_of_path spells nodes
 orientation; and for graphs produced by compression: the node builders' terminal-extension tables (taken from the last
 path k-mer / node, complemented when traversed flipped) and the complete step tables of both routes (a node that absorbs a
 palindrome or a branch has an edge with no way back)."""
-from .. import dt_graph, dt_compress, dt_tables
+from .. import dt_graph, dt_compress, dt_tables, dt_filter
 
 ASSUMPTIONS = ["that the set of resolvable edges equals the input's (K+1)-mers is a data-dependent fact not decided here"]
 
@@ -29,3 +29,5 @@ def run(F, rep):
     rep.run(dt_compress.graph_builder_table, F, rep, "C03.6")
     rep.run(dt_tables.hash_step_table, F, rep, "C03.6")
     rep.run(dt_tables.graph_step_table, F, rep, "C03.6")
+    # the edge set equals the observed (K+1)-mers only if every observation's flanking bases reach the table: both summarizers
+    rep.run(dt_filter.summarizer_tables, F, rep, "C03.9")
